@@ -56,6 +56,12 @@ Inductive wres :=
 | WOk (n : nat)        (* (n, nil) *)
 | WPanic (n : nat).    (* nonce overflow panic after n bytes were handed to the conn *)
 
+(** result of a Write whose underlying conn may fail *)
+Inductive wfres :=
+| WFOk (n : nat)       (* (n, nil) *)
+| WFErr (n : nat)      (* (n, err): the conn.Write of a frame failed after n bytes had gone out *)
+| WFPanic (n : nat).   (* nonce overflow *)
+
 Inductive rerr :=
 | REof            (* io.EOF from the underlying conn: no byte of a further frame *)
 | RUnexpectedEof  (* io.ErrUnexpectedEOF: the stream ends inside a frame *)
@@ -193,6 +199,48 @@ Section Frame.
 
   Definition delivered_of (r : rres) : bytes := match r with ROk d => d | RErr _ => [] end.
   Definition delivered (rs : list rres) : bytes := concat (map delivered_of rs).
+
+  (** ** Write when the underlying conn.Write may fail
+
+      [fail = Some j]: the conn.Write of the (j+1)-th frame of this call returns an error.
+      The code seals the frame and advances the nonce BEFORE handing the frame to the conn, so
+      the failing frame has consumed its nonce whatever became of its bytes; Write returns the
+      number of bytes of the chunks before it, and nothing after it is sealed.  [out] lists the
+      frames handed to the conn, the failing one included (what reaches the far end is the
+      network's business). *)
+  Fixpoint write_chunks_f (k : key) (nc : nonce) (cs : list bytes) (n : nat) (fail : option nat)
+    : nonce * list bytes * wfres :=
+    match cs with
+    | [] => (nc, [], WFOk n)
+    | c :: rest =>
+        let sealed := seal k nc (mk_frame c) in
+        match incr_nonce nc with
+        | None => (nc, [], WFPanic n)
+        | Some nc' =>
+            match fail with
+            | Some O => (nc', [sealed], WFErr n)
+            | _ =>
+                let '(nc2, out, r) :=
+                  write_chunks_f k nc' rest (n + length c) (option_map Nat.pred fail) in
+                (nc2, sealed :: out, r)
+            end
+        end
+    end.
+
+  Definition write_f (st : conn) (data : bytes) (fail : option nat) : conn * list bytes * wfres :=
+    let '(nc, out, r) := write_chunks_f (send_key st) (send_nonce st) (chunks data) 0 fail in
+    ({| send_key := send_key st; recv_key := recv_key st; send_nonce := nc;
+        recv_nonce := recv_nonce st; recv_buffer := recv_buffer st |}, out, r).
+
+  (** a caller that keeps writing after errors *)
+  Fixpoint write_many_f (st : conn) (ws : list (bytes * option nat)) : conn * list bytes :=
+    match ws with
+    | [] => (st, [])
+    | (d, fl) :: more =>
+        let '(st1, out, _) := write_f st d fl in
+        let '(st2, out2) := write_many_f st1 more in
+        (st2, out ++ out2)
+    end.
 End Frame.
 
 Arguments send_key {key}. Arguments recv_key {key}. Arguments send_nonce {key}.
@@ -216,6 +264,44 @@ Definition verify_auth (challenge claimed : N) (s : isig) : hres :=
   match s with
   | SigOf signer msg => if (signer =? claimed)%N && (msg =? challenge)%N then HOk claimed else HFail
   | SigGarbage => HFail
+  end.
+
+(* ------------------------------------------------------------------ *)
+(** * MultiplexTransport.upgrade (lib/p2p/transport.go): from the authenticated key to the peer ID
+
+    [idof] is PubKeyToID (hex of the Keccak address of the key).  [dialed] is the ID of the
+    address that was dialed ([None] on an inbound connection).  The NodeInfo the far end sends
+    over the established secret connection is unauthenticated data: [ni_id] is whatever it
+    claims; Validate and CompatibleWith (lib/p2p/node_info.go, not part of this property) are
+    abstracted to their verdicts.  [None]: the NodeInfo exchange failed. *)
+
+Record node_info := { ni_id : N; ni_valid : bool; ni_compat : bool }.
+
+Inductive rej :=
+| RejAuth       (* isAuthFailure: secret conn failed / dialed ID mismatch / handshake failed / NodeInfo ID mismatch *)
+| RejInvalid    (* isNodeInfoInvalid *)
+| RejSelf       (* isSelf *)
+| RejIncompat.  (* isIncompatible *)
+
+Inductive upres := UpOk (peer_id : N) | UpRej (r : rej).
+
+Definition upgrade (idof : N -> N) (self_id : N) (dialed : option N)
+           (challenge claimed : N) (s : isig) (ni : option node_info) : upres :=
+  match verify_auth challenge claimed s with
+  | HFail => UpRej RejAuth
+  | HOk k =>
+      let conn_id := idof k in
+      if match dialed with Some d => negb (conn_id =? d)%N | None => false end
+      then UpRej RejAuth
+      else match ni with
+           | None => UpRej RejAuth
+           | Some i =>
+               if negb (ni_valid i) then UpRej RejInvalid
+               else if negb (conn_id =? ni_id i)%N then UpRej RejAuth
+               else if (self_id =? ni_id i)%N then UpRej RejSelf
+               else if negb (ni_compat i) then UpRej RejIncompat
+               else UpOk (ni_id i)
+           end
   end.
 
 (* ------------------------------------------------------------------ *)
@@ -457,6 +543,21 @@ Fixpoint recv_stream (maxsize : nat) (cs : list chan) (ps : list packet) : list 
           let '(evs, r) := recv_stream maxsize cs' rest in
           (match ev with Some e => e :: evs | None => evs end, r)
       end
+  end.
+
+(** protoio ReadMsg looks at the declared length (a uint64 varint converted to a Go int, so
+    values from 2^63 on are negative) before allocating or reading anything: refused when
+    negative or above the limit. *)
+Definition len_refused (maxsize : nat) (len : N) : bool :=
+  (9223372036854775807 <? len)%N || (N.of_nat maxsize <? len)%N.
+
+(** a packet stream followed by one more length prefix [len] (and arbitrary bytes) *)
+Definition recv_stream_then_len (maxsize : nat) (cs : list chan) (ps : list packet) (len : N)
+  : list mevent * option merr :=
+  let '(evs, r) := recv_stream maxsize cs ps in
+  match r with
+  | Some _ => (evs, r)
+  | None => (evs, if len_refused maxsize len then Some MTooBig else None)
   end.
 
 Definition events_of (id : N) (evs : list mevent) : list bytes :=
